@@ -231,6 +231,26 @@ def drive(tier):
         R.add("x.textof", {"txin": gen.proj_txin(tx_.vin[0]), "txout": gen.proj_txout(tx_.vout[0]), "hdr": gen.header_json(dh)},
               {"opstr": text(str(tx_.vin[0].prevout)), "oprepr": text(repr(tx_.vin[0].prevout)), "inrepr": text(repr(tx_.vin[0])),
                "outrepr": text(repr(tx_.vout[0])), "hdrrepr": text(repr(hd))})
+    # ---- IsLowDERSignature / CompareBigEndian at the half-order boundary
+    from bitcoin.core.script import IsLowDERSignature, CompareBigEndian
+    N_ = 0xFFFFFFFFFFFFFFFFFFFFFFFFFFFFFFFEBAAEDCE6AF48A03BBFD25E8CD0364141
+
+    def der_(r_, s_):
+        def i_(v):
+            b_ = v.to_bytes(max(1, (v.bit_length() + 7) // 8), "big")
+            return b"\x02" + bytes([len(b_) + (b_[0] >> 7)]) + (b"\x00" if b_[0] >> 7 else b"") + b_
+        body = i_(r_) + i_(s_)
+        return b"\x30" + bytes([len(body)]) + body
+    for s_ in [1, 2, 127, 128, 255, 256, N_ // 2 - 1, N_ // 2, N_ // 2 + 1, N_ // 2 + 2, N_ - 1, N_ - 2, 2 ** 255 - 1, 2 ** 255, (N_ // 2) ^ (1 << 64), (N_ // 2) - (1 << 128),
+               (N_ // 2) + (1 << 8), (N_ // 2) - (1 << 8)] + [r.getrandbits(r.randrange(1, 257)) or 1 for _ in range(30)]:
+        for r_ in (1, r.getrandbits(255) + 1, 2 ** 255 + 5):
+            sg = der_(r_, s_ % N_ or 1)
+            k, v = call(IsLowDERSignature, sg)
+            R.add("x.lows", {"sig": b2l(sg)}, {"low": bool(v) if k == "ret" else "exc"})
+    for _ in range(60):
+        a_ = bytes(r.randrange(0, 3)) + gen.rbytes(r, r.randrange(0, 5))
+        b_ = bytes(r.randrange(0, 3)) + (a_[-2:] if r.random() < 0.3 else gen.rbytes(r, r.randrange(0, 5)))
+        R.add("x.cmpbe", {"a": b2l(a_), "b": b2l(b_)}, {"c": int(CompareBigEndian(a_, b_))})
     # ---- address conveniences
     from bitcoin.wallet import CBitcoinAddress as _A, P2SHBitcoinAddress as _P2SH, P2PKHBitcoinAddress as _P2PKH
     CLS = {"P2PKHBitcoinAddress": "P2PKH", "P2SHBitcoinAddress": "P2SH", "P2WPKHBitcoinAddress": "P2WPKH", "P2WSHBitcoinAddress": "P2WSH"}
